@@ -200,7 +200,8 @@ pub fn process_stream_new_msgs(
                 }
             }
         } else {
-            stream.all_msgs_last_processed_len += new_msgs_len;
+            // (new_msgs_offset can be larger than all_msgs_last_processed_len for a stream created after msgs have been drained)
+            stream.all_msgs_last_processed_len = new_msgs_offset + new_msgs_len;
         }
     }
 }
